@@ -206,7 +206,10 @@ def r19_4(ctx):
             if strip(o) == ('variant', f'{ST}::Failure'):
                 fails.append(x[0])
     ctx.need(fails, "set_state(Failure) in dispatch")
-    exhausted = lambda f: f[0] == 'rel' and f[1] in ('Ge', 'Gt') and f"F:{PQ}.server_idx" in leafs(f[2])
+    # `server_idx >= servers.len()` or its checked-lookup form `servers.get(server_idx)` is None
+    exhausted = lambda f: (f[0] == 'rel' and f[1] in ('Ge', 'Gt') and f"F:{PQ}.server_idx" in leafs(f[2])) or \
+        (((f[0] == 'is' and f[2] == 'None') or (f[0] == 'isnot' and 'Some' in f[2])) and is_call(strip(f[1]), '::get')
+         and f"F:{PQ}.server_idx" in leafs(f[1]))
     if any(not unguarded(F, b, [s], exhausted) for s in fails):
         ctx.ok(('failure', 'all-servers-tried'))
     else:
